@@ -283,6 +283,9 @@ def run(tier, seed, rng, known, replay):
                                            'ops': base.tag(h['ops'][:b['op_index'] + 1]), 'line': b['line'], 'impl': b['impl'], 'spec': b['spec'],
                                            'acceptor': what, 'spec_part': 'DC.DjSpec.step; refinement theorem DC.Django.djrun_refines'},
                                 'found_input': True, 'what': 'property violated on the implementation: ' + what})
+    from props import surface
+    for v_ in surface.django_subobjects()[:2]:
+        r['violations'].append({'replay': {'property': 'C19', 'kind': 'surface-probe', 'probe': 'django_subobjects', 'acceptor': v_}, 'found_input': True, 'what': v_})
     spec_stats = {'spec_histories': n_spec, 'results_compared_with_lean_spec': compared, 'spec_disagreements': len(bad)}
     dist, distinct = base.op_distribution(hists, r['impl_out'])
     violations = list(r['violations'])
